@@ -1107,6 +1107,86 @@ impl Engine {
     }
 }
 
+/// Self-test support: drive the lock table directly (no threads) with a script of requests and releases and report
+/// what the model answers, so that the answers can be compared with a real parking_lot::RwLock under real threads.
+pub mod probe {
+    use super::*;
+
+    pub struct Table {
+        st: State,
+    }
+
+    #[derive(Debug, Clone, Copy, PartialEq, Eq)]
+    pub enum Ans {
+        Granted,
+        Failed,
+        Blocked,
+    }
+
+    impl Table {
+        pub fn new(n: usize) -> Self {
+            let mut cfg = RunCfg::solo(0);
+            cfg.n_threads = n;
+            let mut st = State::new(cfg);
+            for t in st.threads.iter_mut() {
+                t.status = Status::AtPoint(None);
+            }
+            Self { st }
+        }
+
+        pub fn request(&mut self, tid: usize, lock: u64, mode: LockMode, kind: LockKind) -> Ans {
+            let req = LockRequest { id: lock, class: LockClass::Other, mode, kind, site: std::panic::Location::caller() };
+            match self.st.attempt(tid, req, None) {
+                Some(Outcome::Granted) => Ans::Granted,
+                Some(_) => Ans::Failed,
+                None => Ans::Blocked,
+            }
+        }
+
+        pub fn release(&mut self, tid: usize, lock: u64, mode: LockMode) {
+            self.st.release(tid, lock, LockClass::Other, mode);
+        }
+
+        /// let simulated time pass; returns the threads whose timed wait expired
+        pub fn advance(&mut self, ns: u64) -> Vec<usize> {
+            self.st.clock += ns;
+            self.st.expire();
+            let mut out = Vec::new();
+            for t in 0..self.st.threads.len() {
+                if let Status::Blocked(p) = self.st.threads[t].status {
+                    if p.expired {
+                        if p.has_bit {
+                            if let Some(l) = self.st.locks.get_mut(&p.req.id) {
+                                if l.writer == Some(t) && !l.writer_granted {
+                                    l.writer = None;
+                                }
+                            }
+                        }
+                        self.st.threads[t].status = Status::AtPoint(None);
+                        out.push(t);
+                    }
+                }
+            }
+            out
+        }
+
+        /// is the blocked thread grantable now? (grants it if so)
+        pub fn wake(&mut self, tid: usize) -> bool {
+            if let Status::Blocked(p) = self.st.threads[tid].status {
+                if self.st.grantable_now(tid, &p) {
+                    if p.req.mode == LockMode::Write && !p.has_bit {
+                        return matches!(self.st.attempt(tid, p.req, Some(p)), Some(Outcome::Granted));
+                    }
+                    self.st.do_grant(tid, &p.req);
+                    self.st.threads[tid].status = Status::AtPoint(None);
+                    return true;
+                }
+            }
+            false
+        }
+    }
+}
+
 impl SimHooks for Engine {
     fn acquire(&self, req: &LockRequest) -> Decision {
         let tid = TID.with(|t| t.get());
